@@ -129,8 +129,14 @@ def _walk_ctx(ev, events, depth, hits, order, is_tl, is_inner):
             else:
                 if is_inner(r):
                     order.append("inner")
+                # what a loop over something else (an index range, say) does to either list is done where the loop stands
+                subs = []
                 for it in L.iters:
-                    _walk_ctx(ev, it.path.events, d2, hits, order if is_inner(r) else [], is_tl, is_inner)
+                    sub = []
+                    _walk_ctx(ev, it.path.events, d2, hits, sub, is_tl, is_inner)
+                    subs.append(sub)
+                longest = max(subs, key=len) if subs else []
+                order.extend(longest)
     return depth
 
 
